@@ -7,17 +7,64 @@ import "verifsim/sim/rt"
 
 func y() { rt.Yield() }
 
-// Int32 mirrors atomic.Int32.
-type Int32 struct{ v int32 }
+// guard makes an atomic value behave, in every simulated run, as it would in a fresh process: a
+// value written during an earlier run (a lazily created pool or cache hanging off a package-level
+// object, a global counter) is forgotten when a later run first touches it. A value written
+// outside any run (package initialisation, harness preparation) stays. One worker process
+// executes thousands of runs; without this, run k would start from what runs 1..k-1 left in
+// package-level state of the code under test and would not replay in a fresh process.
+type guard struct {
+	ep  uint64
+	set bool
+}
 
-func (x *Int32) Load() int32           { y(); return x.v }
-func (x *Int32) Store(val int32)       { y(); defer y(); x.v = val }
-func (x *Int32) Swap(new int32) int32  { y(); defer y(); old := x.v; x.v = new; return old }
-func (x *Int32) Add(delta int32) int32 { y(); x.v += delta; return x.v }
-func (x *Int32) And(mask int32) int32  { y(); old := x.v; x.v &= mask; return old }
-func (x *Int32) Or(mask int32) int32   { y(); old := x.v; x.v |= mask; return old }
+func fresh[T any](g *guard, v *T, write bool) {
+	cur := rt.RunEpoch()
+	if g.set && g.ep != 0 && g.ep != cur {
+		var zero T
+		*v = zero
+		g.set = false
+		rt.Reach("atomic.value-of-an-earlier-run-forgotten")
+	}
+	if write {
+		g.ep, g.set = cur, true
+	}
+}
+
+// Int32 mirrors atomic.Int32.
+type Int32 struct {
+	v int32
+	g guard
+}
+
+func (x *Int32) Load() int32     { y(); fresh(&x.g, &x.v, false); return x.v }
+func (x *Int32) Store(val int32) { y(); fresh(&x.g, &x.v, true); defer y(); x.v = val }
+func (x *Int32) Swap(new int32) int32 {
+	y()
+	fresh(&x.g, &x.v, true)
+	defer y()
+	old := x.v
+	x.v = new
+	return old
+}
+func (x *Int32) Add(delta int32) int32 { y(); fresh(&x.g, &x.v, true); x.v += delta; return x.v }
+func (x *Int32) And(mask int32) int32 {
+	y()
+	fresh(&x.g, &x.v, true)
+	old := x.v
+	x.v &= mask
+	return old
+}
+func (x *Int32) Or(mask int32) int32 {
+	y()
+	fresh(&x.g, &x.v, true)
+	old := x.v
+	x.v |= mask
+	return old
+}
 func (x *Int32) CompareAndSwap(old, new int32) bool {
 	y()
+	fresh(&x.g, &x.v, true)
 	defer y()
 	if x.v == old {
 		x.v = new
@@ -41,16 +88,39 @@ func CompareAndSwapInt32(addr *int32, old, new int32) bool {
 }
 
 // Int64 mirrors atomic.Int64.
-type Int64 struct{ v int64 }
+type Int64 struct {
+	v int64
+	g guard
+}
 
-func (x *Int64) Load() int64           { y(); return x.v }
-func (x *Int64) Store(val int64)       { y(); defer y(); x.v = val }
-func (x *Int64) Swap(new int64) int64  { y(); defer y(); old := x.v; x.v = new; return old }
-func (x *Int64) Add(delta int64) int64 { y(); x.v += delta; return x.v }
-func (x *Int64) And(mask int64) int64  { y(); old := x.v; x.v &= mask; return old }
-func (x *Int64) Or(mask int64) int64   { y(); old := x.v; x.v |= mask; return old }
+func (x *Int64) Load() int64     { y(); fresh(&x.g, &x.v, false); return x.v }
+func (x *Int64) Store(val int64) { y(); fresh(&x.g, &x.v, true); defer y(); x.v = val }
+func (x *Int64) Swap(new int64) int64 {
+	y()
+	fresh(&x.g, &x.v, true)
+	defer y()
+	old := x.v
+	x.v = new
+	return old
+}
+func (x *Int64) Add(delta int64) int64 { y(); fresh(&x.g, &x.v, true); x.v += delta; return x.v }
+func (x *Int64) And(mask int64) int64 {
+	y()
+	fresh(&x.g, &x.v, true)
+	old := x.v
+	x.v &= mask
+	return old
+}
+func (x *Int64) Or(mask int64) int64 {
+	y()
+	fresh(&x.g, &x.v, true)
+	old := x.v
+	x.v |= mask
+	return old
+}
 func (x *Int64) CompareAndSwap(old, new int64) bool {
 	y()
+	fresh(&x.g, &x.v, true)
 	defer y()
 	if x.v == old {
 		x.v = new
@@ -74,16 +144,39 @@ func CompareAndSwapInt64(addr *int64, old, new int64) bool {
 }
 
 // Uint32 mirrors atomic.Uint32.
-type Uint32 struct{ v uint32 }
+type Uint32 struct {
+	v uint32
+	g guard
+}
 
-func (x *Uint32) Load() uint32            { y(); return x.v }
-func (x *Uint32) Store(val uint32)        { y(); defer y(); x.v = val }
-func (x *Uint32) Swap(new uint32) uint32  { y(); defer y(); old := x.v; x.v = new; return old }
-func (x *Uint32) Add(delta uint32) uint32 { y(); x.v += delta; return x.v }
-func (x *Uint32) And(mask uint32) uint32  { y(); old := x.v; x.v &= mask; return old }
-func (x *Uint32) Or(mask uint32) uint32   { y(); old := x.v; x.v |= mask; return old }
+func (x *Uint32) Load() uint32     { y(); fresh(&x.g, &x.v, false); return x.v }
+func (x *Uint32) Store(val uint32) { y(); fresh(&x.g, &x.v, true); defer y(); x.v = val }
+func (x *Uint32) Swap(new uint32) uint32 {
+	y()
+	fresh(&x.g, &x.v, true)
+	defer y()
+	old := x.v
+	x.v = new
+	return old
+}
+func (x *Uint32) Add(delta uint32) uint32 { y(); fresh(&x.g, &x.v, true); x.v += delta; return x.v }
+func (x *Uint32) And(mask uint32) uint32 {
+	y()
+	fresh(&x.g, &x.v, true)
+	old := x.v
+	x.v &= mask
+	return old
+}
+func (x *Uint32) Or(mask uint32) uint32 {
+	y()
+	fresh(&x.g, &x.v, true)
+	old := x.v
+	x.v |= mask
+	return old
+}
 func (x *Uint32) CompareAndSwap(old, new uint32) bool {
 	y()
+	fresh(&x.g, &x.v, true)
 	defer y()
 	if x.v == old {
 		x.v = new
@@ -113,16 +206,39 @@ func CompareAndSwapUint32(addr *uint32, old, new uint32) bool {
 }
 
 // Uint64 mirrors atomic.Uint64.
-type Uint64 struct{ v uint64 }
+type Uint64 struct {
+	v uint64
+	g guard
+}
 
-func (x *Uint64) Load() uint64            { y(); return x.v }
-func (x *Uint64) Store(val uint64)        { y(); defer y(); x.v = val }
-func (x *Uint64) Swap(new uint64) uint64  { y(); defer y(); old := x.v; x.v = new; return old }
-func (x *Uint64) Add(delta uint64) uint64 { y(); x.v += delta; return x.v }
-func (x *Uint64) And(mask uint64) uint64  { y(); old := x.v; x.v &= mask; return old }
-func (x *Uint64) Or(mask uint64) uint64   { y(); old := x.v; x.v |= mask; return old }
+func (x *Uint64) Load() uint64     { y(); fresh(&x.g, &x.v, false); return x.v }
+func (x *Uint64) Store(val uint64) { y(); fresh(&x.g, &x.v, true); defer y(); x.v = val }
+func (x *Uint64) Swap(new uint64) uint64 {
+	y()
+	fresh(&x.g, &x.v, true)
+	defer y()
+	old := x.v
+	x.v = new
+	return old
+}
+func (x *Uint64) Add(delta uint64) uint64 { y(); fresh(&x.g, &x.v, true); x.v += delta; return x.v }
+func (x *Uint64) And(mask uint64) uint64 {
+	y()
+	fresh(&x.g, &x.v, true)
+	old := x.v
+	x.v &= mask
+	return old
+}
+func (x *Uint64) Or(mask uint64) uint64 {
+	y()
+	fresh(&x.g, &x.v, true)
+	old := x.v
+	x.v |= mask
+	return old
+}
 func (x *Uint64) CompareAndSwap(old, new uint64) bool {
 	y()
+	fresh(&x.g, &x.v, true)
 	defer y()
 	if x.v == old {
 		x.v = new
@@ -152,16 +268,39 @@ func CompareAndSwapUint64(addr *uint64, old, new uint64) bool {
 }
 
 // Uintptr mirrors atomic.Uintptr.
-type Uintptr struct{ v uintptr }
+type Uintptr struct {
+	v uintptr
+	g guard
+}
 
-func (x *Uintptr) Load() uintptr             { y(); return x.v }
-func (x *Uintptr) Store(val uintptr)         { y(); defer y(); x.v = val }
-func (x *Uintptr) Swap(new uintptr) uintptr  { y(); defer y(); old := x.v; x.v = new; return old }
-func (x *Uintptr) Add(delta uintptr) uintptr { y(); x.v += delta; return x.v }
-func (x *Uintptr) And(mask uintptr) uintptr  { y(); old := x.v; x.v &= mask; return old }
-func (x *Uintptr) Or(mask uintptr) uintptr   { y(); old := x.v; x.v |= mask; return old }
+func (x *Uintptr) Load() uintptr     { y(); fresh(&x.g, &x.v, false); return x.v }
+func (x *Uintptr) Store(val uintptr) { y(); fresh(&x.g, &x.v, true); defer y(); x.v = val }
+func (x *Uintptr) Swap(new uintptr) uintptr {
+	y()
+	fresh(&x.g, &x.v, true)
+	defer y()
+	old := x.v
+	x.v = new
+	return old
+}
+func (x *Uintptr) Add(delta uintptr) uintptr { y(); fresh(&x.g, &x.v, true); x.v += delta; return x.v }
+func (x *Uintptr) And(mask uintptr) uintptr {
+	y()
+	fresh(&x.g, &x.v, true)
+	old := x.v
+	x.v &= mask
+	return old
+}
+func (x *Uintptr) Or(mask uintptr) uintptr {
+	y()
+	fresh(&x.g, &x.v, true)
+	old := x.v
+	x.v |= mask
+	return old
+}
 func (x *Uintptr) CompareAndSwap(old, new uintptr) bool {
 	y()
+	fresh(&x.g, &x.v, true)
 	defer y()
 	if x.v == old {
 		x.v = new
@@ -191,13 +330,24 @@ func CompareAndSwapUintptr(addr *uintptr, old, new uintptr) bool {
 }
 
 // Bool mirrors atomic.Bool.
-type Bool struct{ v bool }
+type Bool struct {
+	v bool
+	g guard
+}
 
-func (x *Bool) Load() bool         { y(); return x.v }
-func (x *Bool) Store(val bool)     { y(); defer y(); x.v = val }
-func (x *Bool) Swap(new bool) bool { y(); defer y(); old := x.v; x.v = new; return old }
+func (x *Bool) Load() bool     { y(); fresh(&x.g, &x.v, false); return x.v }
+func (x *Bool) Store(val bool) { y(); fresh(&x.g, &x.v, true); defer y(); x.v = val }
+func (x *Bool) Swap(new bool) bool {
+	y()
+	fresh(&x.g, &x.v, true)
+	defer y()
+	old := x.v
+	x.v = new
+	return old
+}
 func (x *Bool) CompareAndSwap(old, new bool) bool {
 	y()
+	fresh(&x.g, &x.v, true)
 	defer y()
 	if x.v == old {
 		x.v = new
@@ -207,13 +357,24 @@ func (x *Bool) CompareAndSwap(old, new bool) bool {
 }
 
 // Pointer mirrors atomic.Pointer[T].
-type Pointer[T any] struct{ p *T }
+type Pointer[T any] struct {
+	p *T
+	g guard
+}
 
-func (x *Pointer[T]) Load() *T       { y(); return x.p }
-func (x *Pointer[T]) Store(val *T)   { y(); defer y(); x.p = val }
-func (x *Pointer[T]) Swap(new *T) *T { y(); defer y(); old := x.p; x.p = new; return old }
+func (x *Pointer[T]) Load() *T     { y(); fresh(&x.g, &x.p, false); return x.p }
+func (x *Pointer[T]) Store(val *T) { y(); fresh(&x.g, &x.p, true); defer y(); x.p = val }
+func (x *Pointer[T]) Swap(new *T) *T {
+	y()
+	fresh(&x.g, &x.p, true)
+	defer y()
+	old := x.p
+	x.p = new
+	return old
+}
 func (x *Pointer[T]) CompareAndSwap(old, new *T) bool {
 	y()
+	fresh(&x.g, &x.p, true)
 	defer y()
 	if x.p == old {
 		x.p = new
@@ -223,20 +384,32 @@ func (x *Pointer[T]) CompareAndSwap(old, new *T) bool {
 }
 
 // Value mirrors atomic.Value.
-type Value struct{ v any }
+type Value struct {
+	v any
+	g guard
+}
 
-func (x *Value) Load() any { y(); return x.v }
+func (x *Value) Load() any { y(); fresh(&x.g, &x.v, false); return x.v }
 func (x *Value) Store(val any) {
 	y()
+	fresh(&x.g, &x.v, true)
 	if val == nil {
 		panic("sync/atomic: store of nil value into Value")
 	}
 	x.v = val
 	y()
 }
-func (x *Value) Swap(new any) any { y(); defer y(); old := x.v; x.v = new; return old }
+func (x *Value) Swap(new any) any {
+	y()
+	fresh(&x.g, &x.v, true)
+	defer y()
+	old := x.v
+	x.v = new
+	return old
+}
 func (x *Value) CompareAndSwap(old, new any) bool {
 	y()
+	fresh(&x.g, &x.v, true)
 	defer y()
 	if x.v == old {
 		x.v = new
